@@ -85,6 +85,11 @@ P = {
          "the detector's acceptance rules (accepted protocol arms, phantom and client parse requirements, empty-client exception for IPv6 phantoms, v4/v6 mix rejection, conversion before operation dispatch) are extracted from src/sessions.rs on every run and every StationToDetector message the Go side builds — including the shutdown clear — is shown to satisfy them; Cleanup is deferred before signal handling. "
          "The Rust side is read at token level (cannot be type-checked offline); Redis delivery and IP-literal well-formedness of every admitted address are not decided.",
          "4/C10"),
+ "C11": (True, "nil-guard dominance for optional protobuf sub-messages (getter/field path normalisation, assign-if-nil and initialised-on-all-paths idioms, entry contracts), length-guard dominance on first-flight slices, reachability + reviewed table for the panic surface, loop-counter bound (go/ssa)",
+         "Decides for every external input: no field of an optional protobuf sub-message reached from external bytes is addressed without a dominating non-nil test of that same access path (or a must-pass initialisation), and the payload contract of the registration constructor holds at its call sites; constant-bound slices of the first-flight buffer are dominated by a sufficient length test; "
+         "over all code reachable from the external entry points (ZMQ ingest, connection handler and every transport/override implementation, HTTP and DNS handlers) every unchecked type assertion, explicit panic, exit/Fatal/Must call and integer division by a run-time value is in a reviewed table with a reason; the DNS name parser's pointer jump is bounded by an incremented loop counter. "
+         "Panics inside dependencies, resource exhaustion, and hangs other than the pointer loop are not decided; the compiler's unproven-bounds list (check_bce) is not used (see DESIGN 7.3).",
+         "4/C11"),
  "C12": (True, "must-alias (must-equal set) dataflow for the response object, must-pass/guard dominance, who-may-read, loop-exit shape rules (go/ssa)",
          "Decides: client-supplied response cleared on every path into processing; the forwarded wrapper is rebuilt from a fresh object with signature fields only from the registrar's own Marshal/Sign; at every successful return the pointer handed to the client is provably the object attached to the forwarded wrapper (must-equal analysis with Override modelled as havoc); "
          "parameter overrides gated by the client's flag on registrar and station; the station applies the response's port and the address of its own family; each weighted override loop exits at its first match; exclusions precede any address override. "
